@@ -139,6 +139,33 @@ def replay_companion(vals, oid):
                     bad.append({"have": have, "handed": handed, "file_bin": str(sr.file_bin)})
             finally:
                 shutil.rmtree(d, ignore_errors=True)
+    # the same three entry points spelled as a relative path and through a symbolic link to the folder
+    for have in (("bin", "cbin"), ("cbin",)):
+        d = tempfile.mkdtemp(prefix="c02_")
+        cwd = os.getcwd()
+        try:
+            real = os.path.join(d, "store")
+            os.makedirs(real)
+            files = _mk_pair(real, 3000, 385, np.random.default_rng(0), keep=have)
+            link = os.path.join(d, "session")
+            os.symlink(real, link)
+            os.chdir(d)
+            for how, base in (("relative", "store"), ("symlink", link), ("relative symlink", "session")):
+                for handed in ("bin", "cbin", "meta"):
+                    if handed in ("bin", "cbin") and handed not in have:
+                        continue
+                    pth = os.path.join(base, os.path.basename(files[handed]))
+                    sr = spikeglx.Reader(pth)
+                    want = handed if handed != "meta" else ("bin" if "bin" in have else "cbin")
+                    okp = sr.file_bin is not None and os.path.basename(str(sr.file_bin)) == os.path.basename(files[want]) and sr.shape == (3000, 385) and np.array_equal(sr._raw[7:9, :], files["D"][7:9, :])
+                    sr.close()
+                    if not okp:
+                        bad.append({"have": have, "handed": handed, "spelled": how, "file_bin": str(sr.file_bin), "shape": sr.shape})
+        except Exception as e:
+            bad.append({"have": have, "relative_or_symlink_raised": repr(e)[:160]})
+        finally:
+            os.chdir(cwd)
+            shutil.rmtree(d, ignore_errors=True)
     # companions named with a UUID (as on the data server) while the data file has none, both bands of the probe in the same folder:
     # each band must resolve to its own header / metadata and open as its own recording
     for uuid_on in ("companions", "all", "none"):
@@ -474,7 +501,7 @@ def b_native(B):
                 shutil.rmtree(d, ignore_errors=True)
 
 
-@bounded(PROPERTY, "native_scratch_retry", bound="real mtscomp: decompress_to_scratch with a failure injected at chunk k in {0,1,2} of 3, then retried without failure; scratch dir given / not given",
+@bounded(PROPERTY, "native_scratch_retry", bound="real mtscomp: decompress_to_scratch with a failure injected at chunk k in {0,1,2} of 3, then retried without failure; scratch dir given / not given; compress_file over a stale / truncated compressed pair of the same shape, keeping and removing the source",
          clause="two-step fault history: nothing left by a failed attempt is ever published under the final name")
 def b_retry(B):
     import unittest.mock as um
@@ -508,6 +535,36 @@ def b_retry(B):
                 sr.close()
                 ok2 = pathlib.Path(out).read_bytes() == orig and os.path.exists(files["cbin"])
                 B.case(("scratch_retry", with_dir, fail_at), raised and ok1 and ok2, detail={"first_attempt_raised": raised, "final_name_clean_after_failure": ok1, "complete_after_retry": ok2})
+            finally:
+                shutil.rmtree(d, ignore_errors=True)
+
+
+    # compression over what an earlier compression of another state of the recording left behind (same shape): the published pair is
+    # the compression of the binary handed over now, and the source goes only when that pair is complete
+    for stale_kind in ("earlier_content", "truncated_copy"):
+        for keep in (True, False):
+            d = tempfile.mkdtemp(prefix="c02_")
+            try:
+                files = _mk_pair(d, 3007, 385, rng, keep=("bin", "cbin"), smooth=True)
+                if stale_kind == "truncated_copy":
+                    raw_c = open(files["cbin"], "rb").read()
+                    open(files["cbin"], "wb").write(raw_c[: len(raw_c) // 2])
+                newD = np.cumsum(rng.integers(-3, 4, size=(3007, 385)), axis=0).astype(np.int16)
+                if stale_kind == "earlier_content":
+                    newD.tofile(files["bin"])            # the recording was rewritten after the earlier compression
+                else:
+                    newD = files["D"]
+                sr = spikeglx.Reader(files["bin"], sort=False)
+                out = sr.compress_file(keep_original=keep, chunk_duration=0.05)
+                sr.close()
+                back = pathlib.Path(d) / "back.bin"
+                sc = spikeglx.Reader(out, sort=False)
+                sc.decompress_file(keep_original=True, out=back)
+                sc.close()
+                okc = back.read_bytes() == newD.tobytes() and (keep == os.path.exists(files["bin"]))
+                B.case(("compress_over_stale_pair", stale_kind, keep), okc, detail={"decompressed_equals_current_binary": back.read_bytes() == newD.tobytes(), "source_present": os.path.exists(files["bin"])})
+            except Exception as e:
+                B.case(("compress_over_stale_pair", stale_kind, keep), False, detail=repr(e)[:200])
             finally:
                 shutil.rmtree(d, ignore_errors=True)
 
